@@ -225,6 +225,11 @@ udp_pipe_close(void *arg)
 	udp_ep   *ep = p->ep;
 	nni_aio  *aio;
 
+	if (ep == NULL) {
+		// The pipe could not be fully created (allocation failure in
+		// the core), and was never started.
+		return;
+	}
 	nni_mtx_lock(&ep->mtx);
 	udp_remove_pipe(p);
 	udp_send_disc(ep, p, DISC_CLOSED);
@@ -241,6 +246,9 @@ udp_pipe_stop(void *arg)
 	udp_pipe *p  = arg;
 	udp_ep   *ep = p->ep;
 
+	if (ep == NULL) {
+		return;
+	}
 	udp_pipe_close(arg);
 
 	nni_mtx_lock(&ep->mtx);
@@ -273,7 +281,13 @@ udp_pipe_start(udp_pipe *p, udp_ep *ep, const nng_sockaddr *sa)
 	p->expire = now +
 	    (p->dialer ? ep->conn_expire : UDP_PIPE_TIMEOUT(p));
 
-	return (udp_add_pipe(ep, p));
+	nng_err rv;
+	if ((rv = udp_add_pipe(ep, p)) != NNG_OK) {
+		// It never made it into the table, and was not counted:
+		// udp_remove_pipe must leave both alone.
+		p->id = 0;
+	}
+	return (rv);
 }
 
 static const nng_sockaddr *
@@ -795,7 +809,9 @@ udp_recv_creq(udp_ep *ep, udp_sp_msg *creq, nng_sockaddr *sa)
 
 	if (udp_pipe_start(p, ep, sa) != NNG_OK) {
 		udp_send_disc(ep, p, DISC_NOBUF);
+		// nobody else will ever see this pipe: our reference goes too
 		nni_pipe_close(p->npipe);
+		nni_pipe_rele(p->npipe);
 		return;
 	}
 
@@ -1545,6 +1561,7 @@ udp_resolv_cb(void *arg)
 	if ((rv = udp_pipe_start(p, ep, &ep->peer_sa)) != NNG_OK) {
 		nni_aio_list_remove(aio);
 		nni_pipe_close(p->npipe);
+		nni_pipe_rele(p->npipe);
 		nni_mtx_unlock(&ep->mtx);
 		nni_aio_finish_error(aio, rv);
 		return;
